@@ -25,6 +25,7 @@ EXPLANATION = (
     "through the completion callback; sleep-polling loops that wait on worker state are escapable when the executor "
     "breaks; a worker sends back any BaseException of the task and exits when it cannot fetch a call item. Boundedness in "
     "time and OS delivery of sentinel readiness are NOT decided."
+    ' backend.submit, which runs under the dispatch lock, never waits for the executor (no configure/shutdown/terminate/join); every early return of the completion callback is a sanctioned one.'
 )
 ASSUMPTIONS = [
     "multiprocessing.connection.wait returns when any given connection or process sentinel is ready; a dead process's sentinel is ready",
